@@ -8,6 +8,8 @@ REG.models["Notification"].ghost["lock"] = OPT(REF("Lock"))
 REG.models["Notification"].ghost_defaults["lock"] = None
 REG.models["Notification"].final.add("lock")
 
+invariant("Condition", "not_a_lock_notification", "self.lock is None", props=["C09"])
+
 model("Lock", module="usim._primitives.locks",
       fields={"_notification": REF("Notification"), "_owner": OPT(ANY), "_depth": INT},
       ghost={"grant": OPT(REF("Interrupt"))},       # wake-up of the designated owner (last hand-off)
@@ -15,7 +17,17 @@ model("Lock", module="usim._primitives.locks",
       final=["_notification"])
 
 invariant("Lock", "wellformed",
-          "self._depth >= 0 and self._notification is not None and self._notification.lock is self", props=["C09"])
+          "self._depth >= 0 and self._notification is not None and self._notification.lock is self "
+          "and exact_class(self._notification, Notification)", props=["C09"])
+
+kernel_fact("K10.not_parked_privately",
+            "forall(Notification, lambda n: implies(n.lock is not None or n.queue is not None, "
+            "       forall(n._waiting, lambda w: w[0] is not me)))",
+            on_resume="forall(Notification, lambda n: implies((n.lock is not None or n.queue is not None) "
+                      "       and forall_new(Interrupt, lambda i: i.sub is not n), "
+                      "       forall(n._waiting, lambda w: w[0] is not me)))",
+            why="an activity parked in the private notification of a Lock/Queue is suspended inside that wait and "
+                "unsubscribes before it runs anything else")
 invariant("Lock", "free_is_idle",
           "implies(self._owner is None, len(self._notification._waiting) == 0 and self._depth == 0)", props=["C09"])
 invariant("Lock", "waiters_not_owner",
@@ -37,7 +49,12 @@ contract("usim._primitives.locks.Lock.__init__",
          params={"self": REF("Lock")},
          requires=["forall(Notification, lambda n: n.lock is not self)", "forall(Interrupt, lambda i: i.sub is not self)"],
          ensures=["self._owner is None and self._depth == 0", "self._notification.lock is self",
-                  "len(self._notification._waiting) == 0"],
+                  "len(self._notification._waiting) == 0",
+                  # everything that existed before is untouched (the private notification is new)
+                  "forall(Notification, lambda n: implies(n is not self._notification, "
+                  "       n._waiting == old(n._waiting) and n.lock is old(n.lock)))",
+                  "exact_class(self._notification, Notification) and self._notification.queue is None",
+                  "fresh_obj(self._notification)"],
          ghost_exit=["self._notification.lock = self\nself.grant = None"],
          modifies=["Lock._notification@self", "Lock._owner@self", "Lock._depth@self", "Lock.grant@self",
                    "Notification._waiting", "Notification.lock"],
@@ -71,18 +88,20 @@ contract("usim._primitives.locks.Lock.__release__",
 contract("usim._primitives.locks.Lock.__aenter__",
          params={"self": REF("Lock")}, returns=REF("Lock"),
          requires=["loop.activity is me",
-                   # kernel facts about the running activity: it is not parked on this lock and it is not a
-                   # designated owner that has not been resumed yet (both would mean it is suspended in __aenter__)
-                   "forall(self._notification._waiting, lambda w: w[0] is not me)",
+                   # kernel fact about the running activity: it is not a designated owner that has not been
+                   # resumed yet (that would mean it is suspended in __aenter__)
                    "implies(self._owner is me, self._depth >= 1)"],
          asserts={1: "internal"},
          suspends=(0, None),
-         ensures=["result is self", "self._owner is me",
+         ensures=["result is self", "self._owner is me", "loop.activity is me",
                   "self._depth == ite(old(self._owner) is me, old(self._depth) + 1, 1)"],
          # cancelled / interrupted / closed while waiting: I am neither owner nor waiter afterwards
          on_signal=["implies(old(self._owner) is not me, self._owner is not me)",
                     "forall(self._notification._waiting, lambda w: w[0] is not me)"],
          on_exit=["forall_new(Interrupt, lambda i: i.sub is None and (i._revoked or not i.scheduled))"],
+         # G: a lock held by somebody else (depth >= 1) is never touched by my segments
+         guarantee=["forall(Lock, lambda L: implies(old(L._owner) is not None and old(L._owner) is not me and old(L._depth) >= 1, "
+                    "       L._owner is old(L._owner) and L._depth == old(L._depth)))"],
          props=["C09", "C10", "C20"])
 
 contract("usim._primitives.locks.Lock.__aexit__",
@@ -98,4 +117,9 @@ contract("usim._primitives.locks.Lock.__aexit__",
                   "        self._owner is old(self._notification._waiting)[0][0] and self._depth == 0 "
                   "        and self._notification._waiting == old(self._notification._waiting)[1:])"],
          unexpected_ok=["AssertionError"],
+         guarantee=["forall(Lock, lambda L: implies(old(L._owner) is not None and old(L._owner) is not me and old(L._depth) >= 1, "
+                    "       L._owner is old(L._owner) and L._depth == old(L._depth)))"],
          props=["C09", "C10"])
+
+rely("Lock", ["_owner", "_depth"], "self._owner is me and self._depth >= 1",
+     why="guarantee clause of Lock.__aenter__/__aexit__: nobody but the holder changes a held lock")
